@@ -443,9 +443,83 @@ func runC17(c *Ctx) {
 	if h := a.IntTable["001"]; h != nil {
 		r.Funcs[c.FuncKey(h)] = true
 		line := ssa.Value(h.Params[1])
-		isTarget := func(v ssa.Value) bool {
+		isTargetOf := func(v, ln ssa.Value) bool {
 			call, ok := v.(*ssa.Call)
-			return ok && call.Call.StaticCallee() != nil && call.Call.StaticCallee().Name() == "Target" && call.Call.Args[0] == line
+			return ok && call.Call.StaticCallee() != nil && call.Call.StaticCallee().Name() == "Target" && call.Call.Args[0] == ln
+		}
+		isTarget := func(v ssa.Value) bool {
+			if isTargetOf(v, line) {
+				return true
+			}
+			// a field of the struct a parsing helper builds from the line: every store to that field in the helper
+			// is Target() of the helper's line parameter
+			var hc *ssa.Call
+			var want *types.Var
+			if fld, ok := v.(*ssa.Field); ok {
+				hc, _ = fld.X.(*ssa.Call)
+				if st, okS := fld.X.Type().Underlying().(*types.Struct); okS {
+					want = st.Field(fld.Field)
+				}
+			} else if ld, ok := v.(*ssa.UnOp); ok && ld.Op == token.MUL {
+				// the struct sits in a local variable: stored once, whole, from the helper's result
+				if fa, okF := ld.X.(*ssa.FieldAddr); okF {
+					if al, okA := fa.X.(*ssa.Alloc); okA {
+						want, _ = fieldOf(fa)
+						nWhole := 0
+						for _, ref := range *al.Referrers() {
+							switch t := ref.(type) {
+							case *ssa.Store:
+								if t.Addr == ssa.Value(al) {
+									nWhole++
+									hc, _ = t.Val.(*ssa.Call)
+								}
+							case *ssa.FieldAddr:
+								for _, r2 := range *t.Referrers() {
+									if s2, isS := r2.(*ssa.Store); isS && s2.Addr == ssa.Value(t) {
+										if f2, _ := fieldOf(t); f2 == want {
+											nWhole = 99 // the field is also written here
+										}
+									}
+								}
+							}
+						}
+						if nWhole != 1 {
+							hc = nil
+						}
+					}
+				}
+			}
+			if hc == nil || want == nil || hc.Call.IsInvoke() {
+				return false
+			}
+			hf := hc.Call.StaticCallee()
+			if hf == nil || !c.InModuleFn(hf) || hf.Package() != c.Client || hf.Blocks == nil {
+				return false
+			}
+			var lp ssa.Value
+			for i, a0 := range hc.Call.Args {
+				if a0 == line && i < len(hf.Params) {
+					lp = hf.Params[i]
+				}
+			}
+			if lp == nil {
+				return false
+			}
+			n, good := 0, true
+			funcInstrs(hf, func(in ssa.Instruction) {
+				s2, isS := in.(*ssa.Store)
+				if !isS {
+					return
+				}
+				if fv, _ := fieldOf(s2.Addr); fv != want {
+					return
+				}
+				n++
+				if !isTargetOf(s2.Val, lp) {
+					good = false
+				}
+			})
+			return good && n > 0
 		}
 		rn := c.deepTrackerCalls(h, "ReNick")
 		r.Exactly("R2", "ReNick calls in the 001 handler", len(rn), 1)
